@@ -1276,7 +1276,17 @@ func sharedAccess() string {
 	sb.WriteString("def eventLoopFields : List String := " + leanStrList(fl) + "\n\n")
 	rf := mustFile("require/module.go")
 	sb.WriteString("def registryFields : List String := " + leanStrList(structFields(rf, "Registry")) + "\n\n")
-	sb.WriteString("def requireModuleFields : List String := " + leanStrList(structFields(rf, "RequireModule")) + "\n")
+	sb.WriteString("def requireModuleFields : List String := " + leanStrList(structFields(rf, "RequireModule")) + "\n\n")
+	// does getCompiledSource hold the registry mutex for its whole body (r.Lock(); defer r.Unlock() first)?
+	locked := false
+	if fd := findFunc(rf, "getCompiledSource"); fd != nil && len(fd.Body.List) >= 2 {
+		a, b := exprString(fd.Body.List[0].(*ast.ExprStmt).X), ""
+		if d, ok := fd.Body.List[1].(*ast.DeferStmt); ok {
+			b = exprString(d.Call)
+		}
+		locked = a == "r.Lock()" && b == "r.Unlock()"
+	}
+	fmt.Fprintf(&sb, "def getCompiledSourceHoldsLock : Bool := %v\n", locked)
 	return sb.String()
 }
 
